@@ -1,6 +1,132 @@
-"""Thorough tier: run the rule set on must-fire / must-stay-silent variants."""
+"""Thorough tier: run the rule set of a property on scratch variants of the
+repository -- must-fire variants (one rule instance broken, still compiles)
+and must-stay-silent variants (behaviour-preserving rewrites).
+
+Scratch copies live under tempfile.mkdtemp() outside /repo and /verif and are
+removed as soon as the variant has been analysed.
+"""
+import json
+import multiprocessing
+import os
+import shutil
+import subprocess
+import sys
+import tempfile
+import time
+
+HERE = os.path.dirname(os.path.dirname(os.path.abspath(__file__)))
+
+
+def make_copy(root):
+    tmp = tempfile.mkdtemp(prefix="zcv-")
+    def ignore(d, names):
+        return [n for n in names if n in ("tests", "__pycache__")
+                or n.endswith(".pyc")]
+    shutil.copytree(os.path.join(root, "src", "ZConfig"),
+                    os.path.join(tmp, "src", "ZConfig"), ignore=ignore)
+    if os.path.isdir(os.path.join(root, "docs")):
+        shutil.copytree(os.path.join(root, "docs"),
+                        os.path.join(tmp, "docs"), ignore=ignore)
+    return tmp
+
+
+def apply_edits(tmp, edits):
+    """edits: list of (relative file, old, new).  Returns None or a reason
+    why the variant does not apply to this tree."""
+    for rel, old, new in edits:
+        path = os.path.join(tmp, rel)
+        if not os.path.exists(path):
+            return "file %s missing" % rel
+        with open(path, encoding="utf-8") as f:
+            s = f.read()
+        if s.count(old) != 1:
+            return "anchor text occurs %d times in %s" % (s.count(old), rel)
+        s = s.replace(old, new)
+        with open(path, "w", encoding="utf-8") as f:
+            f.write(s)
+        if rel.endswith(".py"):
+            try:
+                compile(s, path, "exec")
+            except SyntaxError as e:
+                return "variant does not compile: %s" % e
+    return None
+
+
+def _one(args):
+    prop, root, v = args
+    tmp = make_copy(root)
+    try:
+        why = apply_edits(tmp, v["edits"])
+        if why:
+            return dict(v, status="skipped", detail=why)
+        ev = os.path.join(tmp, "ev")
+        p = subprocess.run([os.path.join(HERE, "check"), prop, "--tier",
+                            "quick", "--root", tmp, "--evidence-dir", ev],
+                           capture_output=True, text=True, timeout=600)
+        rules = []
+        try:
+            with open(os.path.join(ev, prop + ".json")) as f:
+                e = json.load(f)
+            rules = sorted({x["rule"] for x in
+                            e["coverage"]["new_violations"]})
+        except Exception:
+            pass
+        if v["expect"] == "fire":
+            ok = p.returncode == 1 and (
+                not v.get("rule") or any(r.startswith(v["rule"])
+                                         for r in rules))
+        else:
+            ok = p.returncode == 0
+        return dict(v, status="ok" if ok else "FAILED", exit=p.returncode,
+                    rules=rules, detail=p.stdout[-1500:] if not ok else "")
+    finally:
+        shutil.rmtree(tmp, ignore_errors=True)
 
 
 def run_selftests(prop, root, jobs=16, run=None):
-    from selftest import variants
-    return variants.run(prop, root, jobs)
+    from selftest import catalog
+    variants = [v for v in catalog.VARIANTS if v["prop"] == prop]
+    t0 = time.time()
+    if not variants:
+        print("%s thorough: no self-test variants registered" % prop)
+        return 0
+    with multiprocessing.Pool(min(jobs, len(variants))) as pool:
+        results = pool.map(_one, [(prop, root, v) for v in variants])
+    failed = [r for r in results if r["status"] == "FAILED"]
+    skipped = [r for r in results if r["status"] == "skipped"]
+    for r in results:
+        print("  selftest %-8s %-6s %-28s %s" % (r["status"], r["expect"],
+                                                 r["id"], r.get("rules", "")))
+    for r in failed:
+        print("SELFTEST-FAIL property=%s variant=%s expect=%s exit=%s\n%s"
+              % (prop, r["id"], r["expect"], r.get("exit"), r["detail"]))
+    for r in skipped:
+        print("  (variant %s does not apply to this tree: %s)"
+              % (r["id"], r["detail"]))
+    print("%s thorough: %d variants, %d ok, %d failed, %d skipped, %.1fs"
+          % (prop, len(results), len(results) - len(failed) - len(skipped),
+             len(failed), len(skipped), time.time() - t0))
+    # extend the evidence file written by the quick pass
+    try:
+        path = os.path.join(HERE, "evidence", prop + ".json")
+        with open(path) as f:
+            ev = json.load(f)
+        ev["tier"] = "thorough"
+        ev["coverage"]["selftest"] = {
+            "variants": len(results),
+            "must_fire": sum(1 for r in results if r["expect"] == "fire"),
+            "must_stay_silent": sum(1 for r in results
+                                    if r["expect"] == "silent"),
+            "ok": len(results) - len(failed) - len(skipped),
+            "failed": [r["id"] for r in failed],
+            "skipped": [r["id"] for r in skipped],
+            "results": [{"id": r["id"], "expect": r["expect"],
+                         "status": r["status"], "rules": r.get("rules")}
+                        for r in results]}
+        ev["wall_s"] = round(ev["wall_s"] + time.time() - t0, 3)
+        with open(path, "w") as f:
+            json.dump(ev, f, indent=1)
+    except Exception as e:  # pragma: no cover
+        print("ANALYSIS-ERROR could not extend evidence: %s" % e)
+        return 2
+    return 2 if failed else 0
